@@ -940,6 +940,67 @@ func oracleC19(r *Rng, n int, thorough bool, seeds []string) *OracleResult {
 			return "", ""
 		})
 	}
+	// a history of edits and encodings on one set: every ToBytes gives the
+	// original bytes while the names are the parsed ones, else the encoding of a
+	// fresh set with the current names (seeded change C19-3: a cache refreshed by
+	// the first slow-path encoding and not invalidated by in-place writes).
+	checkSeq := func(line string) {
+		args := strings.Fields(line)[1:]
+		guard(line, "label-history", func() (string, string) {
+			var l *rfc1035label.Labels
+			var orig []byte
+			var parsed []string
+			if args[0] == "new" {
+				l = rfc1035label.NewLabels()
+			} else {
+				orig = unhx(args[0])
+				var err error
+				l, err = rfc1035label.FromBytes(append([]byte{}, orig...))
+				if err != nil {
+					return "", ""
+				}
+				parsed = append([]string{}, l.Labels...)
+			}
+			seen[hashStr(line)] = struct{}{}
+			for k, op := range args[1:] {
+				f := strings.Split(op, ":")
+				switch f[0] {
+				case "t":
+					out := l.ToBytes()
+					cur := append([]string{}, l.Labels...)
+					var want []byte
+					if args[0] != "new" && sameNames(parsed, cur) {
+						want = orig
+					} else {
+						fresh := rfc1035label.NewLabels()
+						fresh.Labels = cur
+						want = fresh.ToBytes()
+						if validNames(cur) {
+							if rw := refEncode(cur); !bytes.Equal(want, rw) {
+								return fmt.Sprintf("fresh set %s encodes to %s, RFC wire form is %s", showNames(cur), hx(want), hx(rw)), "label-encode"
+							}
+						}
+					}
+					if !bytes.Equal(out, want) {
+						return fmt.Sprintf("step %d: names are %s, ToBytes gives %s instead of %s", k, showNames(cur), hx(out), hx(want)), "label-history"
+					}
+				case "s":
+					if i := atoi(f[1]); i < len(l.Labels) {
+						l.Labels[i] = parseNames(f[2])[0]
+					}
+				case "a":
+					l.Labels = append(l.Labels, parseNames(f[1])[0])
+				case "r":
+					l.Labels = parseNames(f[1])
+				case "d":
+					if i := atoi(f[1]); i < len(l.Labels) {
+						l.Labels = append(l.Labels[:i], l.Labels[i+1:]...)
+					}
+				}
+			}
+			return "", ""
+		})
+	}
 	// smallest inputs first, so that the failing inputs reported are minimal
 	if thorough {
 		enumLabelStrings(labelEnumLen, func(b []byte) {
@@ -980,12 +1041,18 @@ func oracleC19(r *Rng, n int, thorough bool, seeds []string) *OracleResult {
 				if validNames(ns) {
 					checkRoundTrip(ns)
 				}
+			case "labseq":
+				checkSeq(s)
 			}
 		}()
 	}
 	for i := 0; i < n; i++ {
 		rr := r.Fork()
-		switch rr.Intn(4) {
+		switch rr.Intn(5) {
+		case 4:
+			line, _ := genLabSeq(rr)
+			checkSeq(line)
+			res.Tags["history"]++
 		case 0:
 			ns := genValidNames(rr)
 			checkRoundTrip(ns)
